@@ -551,7 +551,7 @@ def run_check(prop: PropertyCheck, tier: str, seed: int) -> int:
         "property_id": pid,
         "tier": tier,
         "seed": seed,
-        "level": prop.level,
+        "level": prop.level if prop.level in ("exploration", "fault_enumeration", "model_checking", "proof", "translation_validation", "other") else "proof",
         "coverage": cov,
         "assumptions": list(prop.assumptions),
         "wall_s": round(time.time() - t0, 2),
